@@ -304,6 +304,17 @@ func genPager(r *Rng, g *PageGen) pagerCase {
 		desc["noise"] = "1"
 	}
 	sb.WriteString("<p>" + g.words(70) + "</p>")
+	if r.Chance(25) {
+		// a second anchor to a neighbouring page: wordy (more than 25 bytes, ignored by the
+		// prev/next scan) or short, with or without one of the loosely matched extraneous words
+		t := k + 1 - 2*r.Intn(2)
+		if t >= 1 && t <= n {
+			txt := r.Pick("Continue reading: the fall of the Western empire", "Continue reading: the end of the Western empire", "Read on: how Augustus redesigned the state",
+				"Print this part", "All parts", "next: the fall", "Continue reading the next part of the story", "more")
+			fmt.Fprintf(&sb, `<p class="teaser"><a href="%s">%s</a></p>`, rel(u(t)), txt)
+			desc["teaser"] = "1"
+		}
+	}
 	sb.WriteString(pager)
 	sb.WriteString(`<div class="footer"><a href="/about">About</a> <a href="/contact">Contact</a> <a href="http://other.example.net/">Partner</a></div>`)
 	sb.WriteString("</body></html>")
